@@ -498,6 +498,12 @@ class Interp:
                             continue
                 except _Break:
                     pass
+            elif isinstance(st, ast.Try) and st.finalbody and not st.handlers and not st.orelse:
+                # try / finally: the clean-up runs on every way out (return included)
+                try:
+                    self.run(st.body, env)
+                finally:
+                    self.run(st.finalbody, env)
             elif isinstance(st, ast.Try) and not st.finalbody and not st.orelse:
                 # native exceptions only (a conversion that refuses its operand): the handler named for it runs
                 names = {'ValueError': ValueError, 'OverflowError': OverflowError, 'TypeError': TypeError, 'KeyError': KeyError,
